@@ -83,7 +83,9 @@ def random_rendering(cfg, rng):
     mig_order = [(a, b) for a in names for b in names if a != b]; rng.shuffle(mig_order)
     unsampled = [p for p in names if cfg['n'][p] == 0]
     omit = [p for p in unsampled if rng.random() < 0.6]
-    return dict(names=nm, n_order=n_order, size_order=size_order, mig_order=mig_order, omit=omit)
+    # the sample handed over as a dict or as a LineageConfig object built from that dict (no extra random draw)
+    return dict(names=nm, n_order=n_order, size_order=size_order, mig_order=mig_order, omit=omit,
+                n_as_object=(len(omit) + names.index(n_order[0]) + len(mig_order)) % 3 == 0)
 
 
 def build_kwargs(cfg, r):
@@ -100,8 +102,8 @@ def build(pg, cfg, r):
     kw = build_kwargs(cfg, r)
     dem = pg.Demography(pop_sizes={p: dict(v) for p, v in kw['pop_sizes'].items()},
                         migration_rates={(a, b): dict(v) for a, b, v in kw['mig']})
-    return pg.Coalescent(n=dict(kw['n']), model=conv.make_model(pg, cfg['model']), demography=dem, parallelize=False,
-                         pbar=False)
+    n = pg.LineageConfig(dict(kw['n'])) if r.get('n_as_object') else dict(kw['n'])
+    return pg.Coalescent(n=n, model=conv.make_model(pg, cfg['model']), demography=dem, parallelize=False, pbar=False)
 
 
 # ----------------------------------------------------------------------------------------- named results
